@@ -58,6 +58,7 @@ Definition dispatch_core (op : string) (a : list arg) : list arg :=
     schnorrsig_sign_custom P (B 0) (B 1)
       (match nth_arg 2%nat a with ABytes magic => Some (magic, I 3, O 4) | _ => None end)
   else if op =? "nonce_function_bip340" then nonce_function_bip340_direct (B 0) (B 1) (B 2) (O 3) (O 4)
+  else if op =? "nonce_function_rfc6979" then [AInt 1; ABytes (nonce_rfc6979 P (B 0) (B 1) (O 2) (O 3) (Z.to_nat (I 4)))]
   else if op =? "schnorrsig_verify" then schnorrsig_verify P (B 0) (B 1) (B 2)
   else if op =? "sha256" then [ABytes (sha256 (B 0))]
   else if op =? "hmac_sha256" then [ABytes (hmac_sha256 (B 0) (B 1))]
